@@ -18,6 +18,7 @@ from typing import Any, Dict, List, Optional
 from odata_query import ast, exceptions
 
 from ..common import Run
+from ..gen import pick as gen_pick
 from ..harness import Item, run_items
 
 PID = "C08"
@@ -69,13 +70,13 @@ def build_positions() -> List[dict]:
     add("substring(name, N) eq title", "int", lambda v: ast.Compare(ast.Eq(), _call("substring", [I("name"), N(v)]), I("title")))
     add("substring(name, 1, N) eq title", "int", lambda v: ast.Compare(ast.Eq(), _call("substring", [I("name"), N(1), N(v)]), I("title")))
     # values that CrossHair realises at their C-level constructors: symbolic small ints select the field values
-    add("n eq FLOAT", "pick", lambda v: ast.Compare(ast.Eq(), I("n"), ast.Float(["1.5", "-2.25e3", "0.0"][v % 3])))
-    add("name eq DATE", "pick", lambda v: ast.Compare(ast.Eq(), I("name"), ast.Date(["2020-02-29", "1999-12-31", "0999-01-01"][v % 3])))
-    add("name eq DATETIME", "pick", lambda v: ast.Compare(ast.Eq(), I("name"), ast.DateTime(["2020-02-29T10:00:00", "1999-12-31T23:59:59.5+02:00", "2001-01-01T00:00"][v % 3])))
-    add("name eq TIME", "pick", lambda v: ast.Compare(ast.Eq(), I("name"), ast.Time(["10:00:00", "23:59:59.123", "00:00:01"][v % 3])))
-    add("name eq GUID", "pick", lambda v: ast.Compare(ast.Eq(), I("name"), ast.GUID(["6c0e37e3-e856-45ee-bd58-484b11882c67", "00000000-0000-0000-0000-000000000000", "FFFFFFFF-FFFF-FFFF-FFFF-FFFFFFFFFFFF"][v % 3])))
-    add("n eq DURATION", "pick", lambda v: ast.Compare(ast.Eq(), I("n"), ast.Duration(["P1D", "-PT2H30M", "P1Y2M3DT4H5M6.5S"][v % 3])))
-    add("flag eq BOOL", "pick", lambda v: ast.Compare(ast.Eq(), I("flag"), ast.Boolean(["true", "false", "TRUE"][v % 3])))
+    add("n eq FLOAT", "pick", lambda v: ast.Compare(ast.Eq(), I("n"), ast.Float(gen_pick(["1.5", "-2.25e3", "0.0"], v % 3))))
+    add("name eq DATE", "pick", lambda v: ast.Compare(ast.Eq(), I("name"), ast.Date(gen_pick(["2020-02-29", "1999-12-31", "0999-01-01"], v % 3))))
+    add("name eq DATETIME", "pick", lambda v: ast.Compare(ast.Eq(), I("name"), ast.DateTime(gen_pick(["2020-02-29T10:00:00", "1999-12-31T23:59:59.5+02:00", "2001-01-01T00:00"], v % 3))))
+    add("name eq TIME", "pick", lambda v: ast.Compare(ast.Eq(), I("name"), ast.Time(gen_pick(["10:00:00", "23:59:59.123", "00:00:01"], v % 3))))
+    add("name eq GUID", "pick", lambda v: ast.Compare(ast.Eq(), I("name"), ast.GUID(gen_pick(["6c0e37e3-e856-45ee-bd58-484b11882c67", "00000000-0000-0000-0000-000000000000", "FFFFFFFF-FFFF-FFFF-FFFF-FFFFFFFFFFFF"], v % 3))))
+    add("n eq DURATION", "pick", lambda v: ast.Compare(ast.Eq(), I("n"), ast.Duration(gen_pick(["P1D", "-PT2H30M", "P1Y2M3DT4H5M6.5S"], v % 3))))
+    add("flag eq BOOL", "pick", lambda v: ast.Compare(ast.Eq(), I("flag"), ast.Boolean(gen_pick(["true", "false", "TRUE"], v % 3))))
     return P
 
 
@@ -105,7 +106,7 @@ def _dj_base(i: int):
 def check_django_pick(i: int, k: int) -> bool:
     """positions where Django hashes the value (In lookup): the value is a symbolic pick from a pool."""
     p = POSITIONS[i]
-    v = STR_POOL[k] if p["kind"] == "str" else [0, -1, 2, 123456789, 7][k % 5]
+    v = gen_pick(STR_POOL, k) if p["kind"] == "str" else gen_pick([0, -1, 2, 123456789, 7], k % 5)
     if v in ("x", 1):
         return True          # equal list members are collapsed into one placeholder by Django itself
     return check_django(i, v)
